@@ -205,3 +205,349 @@ def rule_a2(ctx):
 def run(ctx):
     rule_a1(ctx)
     rule_a2(ctx)
+
+
+# ---------------------------------------------------------------------------
+# A3: cancel handshake
+
+from ..locks import lockinfo   # noqa: E402
+from ..core import strip_addr   # noqa: E402
+from ..pathsim import Sim, Client   # noqa: E402
+
+UNPARK_CALLS = ("nni_aio_list_remove", "nni_list_remove", "nni_list_node_remove")
+OWN_CALLS = ("nni_aio_list_active", "nni_list_active", "nni_list_node_active")
+
+
+def cancel_functions(prog):
+    out = {}
+    for f in prog.functions:
+        for s in f.calls(START):
+            a = strip_addr(f.expand(s.node["args"][1])) if len(s.node["args"]) > 1 else None
+            if a is not None and a.get("k") == "fnref":
+                g = prog.fn(a["n"], f.file) or prog.fn(a["n"])
+                if g is not None:
+                    out.setdefault(g, []).append(f.name)
+    return out
+
+
+def mentions_var(n, name):
+    return any(x.get("k") == "var" and x["n"] == name for x in walk(n))
+
+
+def ownership_edges(fn, aio):
+    """{block: succ index on which the cancel function *owns* aio} from
+    tests of the form nni_aio_list_active(aio) / nni_list_active(L, aio) /
+    X == aio / X != aio / nni_list_first(L) == aio."""
+    out = {}
+    for b in fn.blocks.values():
+        if not b.term or len(b.succs) != 2:
+            continue
+        c = fn.cond(b.id)
+        if c is None or not mentions_var(c, aio):
+            continue
+        t = truth_of(c, lambda n: n.get("k") == "call" and n.get("fn") in OWN_CALLS and mentions_var(n, aio))
+        if t:
+            out[b.id] = 0 if t > 0 else 1
+            continue
+        neg = 0
+        cc = c
+        while cc.get("k") == "un" and cc.get("op") == "!":
+            cc = cc["e"]
+            neg ^= 1
+        if cc.get("k") == "bin" and cc.get("op") in ("==", "!="):
+            sides = (cc["lhs"], cc["rhs"])
+            if any(mentions_var(x, aio) for x in sides) and not all(mentions_var(x, aio) for x in sides):
+                eq_edge = 0 if cc["op"] == "==" else 1
+                out[b.id] = eq_edge ^ neg
+    return out
+
+
+def flag_ownership(fn, fin_pos):
+    """Test-and-clear ownership through a flag/field: a branch on field path P
+    (non-zero edge) dominates the finish, and P is assigned zero/NULL on every
+    path from that edge to the finish.  Returns (edges, clear sites)."""
+    edges = {}
+    clears = set()
+    for b in fn.blocks.values():
+        if not b.term or len(b.succs) != 2:
+            continue
+        c = fn.cond(b.id)
+        if c is None:
+            continue
+        fld = None
+        for n in walk(c):
+            if n.get("k") == "mem":
+                fld = n
+        if fld is None:
+            continue
+        txt = show(fld)
+        t = truth_of(c, lambda n, txt=txt: n.get("k") == "mem" and show(n) == txt)
+        if not t:
+            continue
+        nz = 0 if t > 0 else 1
+        cl = set()
+        for s in fn.assigns():
+            if show(s.node["lhs"]) == txt:
+                v = const_of(fn.expand(s.node["rhs"]))
+                if v == 0:
+                    cl.add((s.b, s.i))
+        if not cl:
+            continue
+        # every path from the nz edge to the finish passes a clear
+        tgt = b.succs[nz]
+        if tgt is None:
+            continue
+        seen = fn.reach((tgt, 0), blocked=lambda bb, ii, e, cl=cl: (bb, ii) in cl)
+        if fin_pos not in seen and fn.dominated_by(fin_pos, edge_ok=lambda bb, k, b=b, nz=nz: not (bb == b.id and k == nz)):
+            edges[b.id] = nz
+            clears |= cl
+    return edges, clears
+
+
+def unpark_sites(fn, aio, fields):
+    """positions that un-park aio: list removal, or clearing of a field that
+    is compared with aio in this function."""
+    out = set()
+    for s in fn.sites():
+        n = s.node
+        if n.get("k") == "call" and n.get("fn") in UNPARK_CALLS and any(
+                a is not None and mentions_var(fn.expand(a), aio) for a in n["args"]):
+            out.add((s.b, s.i))
+        elif n.get("k") == "call" and n.get("fn") == "nni_aio_set_prov_data" and len(n["args"]) == 2 and \
+                mentions_var(fn.expand(n["args"][0]), aio) and is_null(fn.expand(n["args"][1])):
+            out.add((s.b, s.i))
+        elif n.get("k") == "asg" and n.get("op") == "=" and is_null(fn.expand(n["rhs"])):
+            if show(n["lhs"]) in fields:
+                out.add((s.b, s.i))
+    return out
+
+
+def rule_a3(ctx):
+    r = ctx.rule("C02.A3", "T6", "cancel functions: every finish of the cancelled aio is under the provider lock, dominated by "
+                 "an ownership test on that aio, and the aio is un-parked on the same path; the not-owned path does not finish",
+                 floor=45)
+    prog = ctx.prog
+    # accepted variants (single symbols)
+    EXC = {
+        "nni_sleep_cancel": "the aio framework's own sleep: ownership is the a_sleep flag tested under eq_mtx (aio.c)",
+    }
+    for fn, users in sorted(cancel_functions(prog).items(), key=lambda t: t[0].name):
+        if not fn.params:
+            continue
+        aio = fn.params[0]["n"]
+        fins = [s for s in fn.calls(FINISH) if s.node["args"] and mentions_var(fn.expand(s.node["args"][0]), aio)]
+        if fn.name in EXC:
+            r.exception(fn.name, EXC[fn.name])
+            r.ob(fn, "excepted: " + EXC[fn.name])
+            continue
+        own = ownership_edges(fn, aio)
+        info = lockinfo(fn)
+        held_at = {}
+        for pos, n, held in info.calls:
+            held_at.setdefault((pos, n.get("_id")), set()).update(held)
+        lock_at = dict(held_at)
+        for pos, lhs, held in lockinfo(fn, True).writes:
+            lock_at.setdefault((pos, None), set()).update(held)
+        # fields compared with aio (field-style park places)
+        fields = set()
+        for b in fn.blocks.values():
+            c = fn.cond(b.id) if b.term else None
+            if c is not None and c.get("k") == "bin" and c.get("op") in ("==", "!="):
+                for x, y in ((c["lhs"], c["rhs"]), (c["rhs"], c["lhs"])):
+                    if x.get("k") == "var" and x["n"] == aio and y.get("k") in ("mem", "idx"):
+                        fields.add(show(y))
+        ups = unpark_sites(fn, aio, fields)
+        if not fins:
+            # variant: abort the inner operation and let its callback finish the user aio
+            aborts = [s for s in fn.calls(("nni_aio_abort", "nni_aio_close", "nng_stream_close", "nni_aio_stop"))]
+            r.ob(fn, "no direct finish (%s)" % ("aborts inner operation" if aborts else "delegates"))
+            continue
+        for s in fins:
+            pos = (s.b, s.i)
+            what = "%s(%s)" % (s.node["fn"], aio)
+            locked_at = lambda p: any(h for (q, nid), h in held_at.items() if q == p)
+            own2, ups2 = dict(own), set(ups)
+            if not own2 or not fn.dominated_by(pos, edge_ok=lambda b, k: not (b in own2 and k == own2[b])):
+                fe, fc = flag_ownership(fn, pos)
+                own2.update(fe)
+                ups2 |= fc
+            # (b) dominated by an ownership edge
+            if not own2 or not fn.dominated_by(pos, edge_ok=lambda b, k: not (b in own2 and k == own2[b])):
+                path = fn.find_path((fn.entry, 0), lambda bb, ii: (bb, ii) == pos,
+                                    edge_ok=lambda b, k: not (b in own2 and k == own2[b]))
+                ctx.fail(r, fn, what + " without ownership test", s.line,
+                         "finish of the cancelled aio is reachable without passing the owned edge of an ownership test "
+                         "(nni_aio_list_active / nni_list_active / field == aio / test-and-clear flag)", fn.path_lines(path))
+                continue
+            # (c) un-parked on the same path
+            pre = fn.reach((fn.entry, 0), blocked=lambda b, i, e: (b, i) in ups2)
+            finish_locked = any(h for (q, nid), h in held_at.items() if q == pos and nid == s.node.get("_id"))
+            if pos in pre:
+                if not finish_locked or fn.reaches_exit((s.b, s.i + 1), blocked=lambda b, i, e: (b, i) in ups2):
+                    ctx.fail(r, fn, what + " without un-park", s.line,
+                             "the aio is finished on a path that never removes it from its park place (list removal / "
+                             "field clear) under the lock: a later completion or cancel will finish it again")
+                    continue
+            # (d) the ownership test itself is evaluated under the provider lock
+            unlocked_test = None
+            for b in own2:
+                blk = fn.blocks[b]
+                if not blk.elems:
+                    continue
+                vis = info.visits.get((b, len(blk.elems) - 1), [])
+                if vis and any(len(h) == 0 for h in vis):
+                    unlocked_test = b
+            if unlocked_test is not None:
+                ctx.fail(r, fn, what + " ownership test outside lock", fn.line_of(unlocked_test, 0),
+                         "the ownership test on the cancelled aio is evaluated without the provider lock: the normal "
+                         "completion path can take the aio between the test and the finish")
+                continue
+            # (a) the ownership test + un-park (or the finish itself) happen under the provider lock
+            ups_locked = [u for u in ups2 if any(h for (q, nid), h in lock_at.items() if q == u)]
+            if not finish_locked and not ups_locked:
+                ctx.fail(r, fn, what + " outside lock", s.line,
+                         "neither the finish nor the un-park of the cancelled aio happens under the provider lock")
+                continue
+            r.ob(fn, "%s line %s: locked, ownership-tested, un-parked (registered by %s)" % (what, s.line, ",".join(users)))
+
+
+# ---------------------------------------------------------------------------
+# A4: single finish per path,  A5: taken-from-list aio is removed before finish
+
+class _FinishClient(Client):
+    def __init__(self, fn, report):
+        self.fn = fn
+        self.report = report
+
+    def init(self, sim):
+        return frozenset()
+
+    def node(self, st, n, sim):
+        fn = self.fn
+        if n.get("k") == "call" and n.get("fn") in FINISH_OR_COMPLETE:
+            ai = 1 if n["fn"] == "nni_aio_completions_add" else 0
+            if len(n["args"]) > ai:
+                p = apath(fn.expand(n["args"][ai]))
+                if p is not None and "[]" not in p:
+                    if p in st:
+                        self.report.append((sim.here(), "->".join(p), sim.lines()))
+                    return st | {p}
+        elif n.get("k") == "asg":
+            p = apath(n["lhs"])
+            if p is not None:
+                return frozenset(q for q in st if q[:len(p)] != p and not (len(p) > 1 and q[-1:] == p[-1:]))
+        elif n.get("k") == "call" and n.get("fn") in ("nni_aio_reset", "nni_aio_start", "nni_sleep_aio", "nni_pipe_recv",
+                                                      "nni_pipe_send", "nni_msgq_aio_get", "nni_msgq_aio_put",
+                                                      "nng_stream_send", "nng_stream_recv"):
+            # the aio is (re)submitted: a later finish belongs to a new operation
+            for a in n["args"]:
+                p = apath(fn.expand(a)) if a is not None else None
+                if p is not None and p in st:
+                    return st - {p}
+        return st
+
+
+def rule_a4(ctx):
+    r = ctx.rule("C02.A4", "T6", "no path finishes the same aio expression twice (without re-submission or re-assignment "
+                 "in between)", floor=150)
+    for fn in ctx.prog.functions:
+        if fn.cfg_failed or fn.file.endswith("core/aio.c"):
+            continue
+        if not any(True for _ in fn.calls(FINISH_OR_COMPLETE)):
+            continue
+        rep = []
+        sim = Sim(fn, _FinishClient(fn, rep), max_states=20000)
+        sim.run()
+        if sim.truncated:
+            raise AnalysisBroken("finish simulation truncated in %s" % fn.name)
+        if rep:
+            for line, what, lines in rep[:3]:
+                ctx.fail(r, fn, "double finish of %s" % what, line,
+                         "aio %s is finished twice on one path" % what, lines)
+        else:
+            r.ob(fn, "%d states: no aio finished twice" % sim.nstates)
+
+
+def rule_a5(ctx):
+    r = ctx.rule("C02.A5", "T6", "an aio taken from a park list (nni_list_first/next) is removed from that list on every "
+                 "path before it is finished", floor=40)
+    TAKE = ("nni_list_first", "nni_list_next", "nni_list_last")
+    for fn in ctx.prog.functions:
+        if fn.cfg_failed:
+            continue
+        for t in fn.assigns():
+            rhs = fn.expand(t.node["rhs"])
+            lhs = t.node["lhs"]
+            if not (rhs is not None and rhs.get("k") == "call" and rhs.get("fn") in TAKE and lhs.get("k") == "var"
+                    and is_aio_ptr(lhs)):
+                continue
+            var = lhs["n"]
+            rem = set()
+            for s in fn.sites():
+                n = s.node
+                if n.get("k") == "call" and n.get("fn") in UNPARK_CALLS and any(
+                        a is not None and mentions_var(fn.expand(a), var) for a in n["args"]):
+                    rem.add((s.b, s.i))
+            fins = [s for s in fn.calls(FINISH_OR_COMPLETE)
+                    if any(a is not None and fn.expand(a).get("k") == "var" and fn.expand(a)["n"] == var
+                           for a in s.node["args"][:2])]
+            if not fins:
+                continue
+
+            def blocked(b, i, e, rem=rem, t=t, var=var):
+                if (b, i) in rem:
+                    return True
+                # re-assignment of the variable starts a new "take"
+                if (b, i) != (t.b, t.i):
+                    for n in walk(e):
+                        if n.get("k") == "asg" and n["lhs"].get("k") == "var" and n["lhs"]["n"] == var:
+                            return True
+                return False
+            ve = fn.value_edges(t)
+            seen = fn.reach((t.b, t.i + 1), blocked=blocked,
+                            edge_ok=lambda b, k, ve=ve: not (b in ve and k == ve[b][1]))
+            bad = [s for s in fins if (s.b, s.i) in seen]
+            if bad:
+                s = bad[0]
+                ctx.fail(r, fn, "finish of %s taken from %s without removal" % (var, show(rhs)[:50]), s.line,
+                         "aio obtained by %s is finished without being removed from the list on this path"
+                         % show(rhs)[:60])
+            else:
+                r.ob(fn, "%s = %s line %s: removed before every finish" % (var, show(rhs)[:40], t.line))
+
+
+def rule_d1(ctx):
+    from .c10 import summaries, INLINE
+    from ..locks import callees, BARRIER
+    r = ctx.rule("C02.D1", "T7", "nni_aio_finish_sync / nni_aio_completions_run / nni_task_exec are never reached while a "
+                 "mutex is held (the callback would run under the provider lock)", floor=20)
+    S = summaries(ctx.prog)
+    for fn, info in S.infos.items():
+        for pos, n, held in info.calls:
+            direct = n.get("fn") in INLINE
+            via = None
+            if not direct:
+                for g in callees(ctx.prog, fn, n):
+                    if g.name in BARRIER:
+                        continue
+                    for e, chain in S.eff.get(g, {}).items():
+                        if e in INLINE:
+                            via = (e, chain)
+            if not direct and not via:
+                continue
+            if held:
+                hcls = ",".join(sorted(c for _, c in held))
+                e, chain = (n["fn"], (n["fn"],)) if direct else via
+                ctx.fail(r, fn, "%s under %s" % (e, hcls), fn.line_of(*pos),
+                         "%s reached while holding %s: %s" % (e, hcls, " > ".join(chain)))
+            else:
+                r.ob(fn, "%s line %s: no mutex held" % (n.get("fn") or "indirect", fn.line_of(*pos)))
+
+
+def run(ctx):   # noqa: F811
+    rule_a1(ctx)
+    rule_a2(ctx)
+    rule_a3(ctx)
+    rule_a4(ctx)
+    rule_a5(ctx)
+    rule_d1(ctx)
